@@ -2,7 +2,7 @@
 From Coq Require Import NArith ZArith List Bool Arith Lia.
 Import ListNotations.
 From Coq Require Import Permutation.
-From OBI.C01 Require Import Model Proofs FlatModel Flat.
+From OBI.C01 Require Import Model Proofs FlatModel Flat GlueModel Glue.
 From OBI.Common Require Import Reseq.
 
 (** ReadSeqFileChunk, for EVERY splitter that answers inside its buffer, every buffer size B, every
@@ -382,6 +382,64 @@ Proof. exact pcase_examples. Qed.
 Theorem C01_fasta_chunk_two_bytes : forall t recs, fasta_parse t = Some recs -> (2 <= length t)%nat.
 Proof. intros t recs H. destruct t as [|c0 [|c1 t]]; try discriminate. cbn. lia. Qed.
 
+(** Round 3 -- the glue the commands go through (GlueModel.v).
+    A transport that delivers [data] and then ends with a genuine I/O error ([fail = true]) instead of io.EOF,
+    under ReadSeqFileChunk (extended reader [chunker_e]: the chunks sent and whether the reader died in log.Fatalf).
+    Clean transport: the extended reader is the reader of the theorems above and does not die. *)
+Theorem C01_chunker_clean_transport : forall spl B,
+  (1 <= B)%nat -> (forall b c, spl b = Some c -> (0 < c <= length b)%nat) ->
+  forall data, exists l, chunker_e spl B false data = Some (l, false) /\ chunker spl B data = Some l /\ partition spl 0 data l.
+Proof. exact chunker_clean_transport. Qed.
+(** Failing transport, every splitter answering inside its buffer, every buffer size, every data received before
+    the failure: the reader terminates by dying (the error is never swallowed), and the chunks it sent before are
+    an initial part of a partition of the bytes received -- numbered 0,1,..., segments of the data, cut only
+    where the splitter answered. *)
+Theorem C01_chunker_io_error_fatal : forall spl B,
+  (1 <= B)%nat -> (forall b c, spl b = Some c -> (0 < c <= length b)%nat) ->
+  forall data, exists l1 l2, chunker_e spl B true data = Some (l1, true) /\ partition spl 0 data (l1 ++ l2).
+Proof. exact chunker_io_error_fatal. Qed.
+(** ... and for ANY splitter: whenever the reader terminates, it died if and only if the transport failed *)
+Theorem C01_chunker_dies_iff_transport_fails : forall spl B fail data l d,
+  chunker_e spl B fail data = Some (l, d) -> d = fail.
+Proof. exact chunker_e_dies_iff_fails. Qed.
+
+(** OBIMimeTypeGuesser reads G bytes (1 MiB) with io.ReadFull, guesses, and rebuilds a reader: the bytes read
+    followed by the rest of the stream when the buffer was filled, the bytes read alone otherwise.  For every
+    buffer size and every non-empty data the rebuilt reader delivers exactly the data (so the format readers see
+    the file as if nothing had been read); over a failing transport the error is returned at once or is still
+    pending after the very same bytes: it is never turned into a clean end of file. *)
+Theorem C01_guess_reader_identity : forall G data, data <> [] -> guess G data false = Some (data, false).
+Proof. exact guess_identity. Qed.
+Theorem C01_guess_io_error_kept : forall G data,
+  guess G data true = None \/ guess G data true = Some (data, true).
+Proof. exact guess_io_error_kept. Qed.
+
+(** xopen.Buf (what Ropen and the standard-input entry points read through) drops ONE leading UTF-8 byte-order mark
+    of the (decompressed) data; ReadSequencesFromFile then guesses the type and hands the bytes to the format
+    reader ([open_guess]: ONoContent = no record, OError = the run fails, OBytes l = the format reader reads l).
+    For every size of the guessing buffer: data without a mark reach the reader unchanged; a mark in front of
+    non-empty data is transparent; no data at all and the mark alone both mean "no record" -- which was false
+    before the repair of round 3 (the mark alone made the type guesser fail with EOF: defect exhibited by the
+    check, see known_findings.d/C01.json). *)
+Theorem C01_open_plain : forall G d, d <> [] -> has_bom d = false -> open_guess true G d = OBytes d.
+Proof. exact open_plain. Qed.
+Theorem C01_open_bom_transparent : forall G d, d <> [] -> open_guess true G (bom ++ d) = OBytes d.
+Proof. exact open_bom_transparent. Qed.
+Theorem C01_open_nothing_is_no_record : forall G, open_guess true G [] = ONoContent /\ open_guess true G bom = ONoContent.
+Proof. exact open_nothing. Qed.
+Theorem C01_open_bom_only_orig_refuted : forall G, (1 <= G)%nat ->
+  open_guess false G [] = ONoContent /\ open_guess false G bom = OError.
+Proof. exact open_bom_only_orig. Qed.
+
+Example C01_glue_nonvacuous :
+  let file := [62;97;10;97;99;10;62;98;10;99;10;62;99;10;103]%N in     (* >a LF ac LF >b LF c LF >c LF g *)
+  chunker_e fasta_split 4 false file = Some ([(0%nat, [62;97;10;97;99]); (1%nat, [62;98;10;99]); (2%nat, [62;99;10;103])], false)
+  /\ chunker_e fasta_split 4 true (firstn 11 file) = Some ([(0%nat, [62;97;10;97;99]); (1%nat, [62;98;10;99])], true)
+  /\ chunker_e fasta_split 4 true (firstn 3 file) = Some ([], true)
+  /\ guess 4 file false = Some (file, false) /\ guess 40 file false = Some (file, false)
+  /\ guess 40 file true = None /\ guess 4 file true = Some (file, true).
+Proof. vm_compute. repeat split; reflexivity. Qed.
+
 Print Assumptions C01_chunker_partition.
 Print Assumptions C01_chunker_partition_fasta.
 Print Assumptions C01_chunker_partition_fastq.
@@ -430,3 +488,12 @@ Print Assumptions C01_read_embl_printed.
 Print Assumptions C01_fasta_chunk_two_bytes.
 Print Assumptions C01_printed_case_genbank.
 Print Assumptions C01_printed_case_embl.
+Print Assumptions C01_chunker_clean_transport.
+Print Assumptions C01_chunker_io_error_fatal.
+Print Assumptions C01_chunker_dies_iff_transport_fails.
+Print Assumptions C01_guess_reader_identity.
+Print Assumptions C01_guess_io_error_kept.
+Print Assumptions C01_open_plain.
+Print Assumptions C01_open_bom_transparent.
+Print Assumptions C01_open_nothing_is_no_record.
+Print Assumptions C01_open_bom_only_orig_refuted.
